@@ -407,6 +407,12 @@ class ShocStandard(Model):
         for kind, (yname, xname) in self.coord_names.items():
             dims = self.kinds[kind].dims
             x, y = self.coord_values[kind]
+            if kind == 'face' and self.encoding.get('transpose_face_lon'):
+                # the longitude of the cell centres stored with its two dimensions the other way round (named dimensions
+                # make that a legal layout; the latitude variable defines the order of the grid dimensions)
+                coords[xname] = xarray.DataArray(x.T.copy(), dims=dims[::-1], attrs={'units': 'degrees_east', 'long_name': 'lon of ' + kind})
+                coords[yname] = xarray.DataArray(y, dims=dims, attrs={'units': 'degrees_north', 'long_name': 'lat of ' + kind})
+                continue
             coords[xname] = xarray.DataArray(x, dims=dims, attrs={'units': 'degrees_east', 'long_name': 'lon of ' + kind})
             coords[yname] = xarray.DataArray(y, dims=dims, attrs={'units': 'degrees_north', 'long_name': 'lat of ' + kind})
         ds = xarray.Dataset()
@@ -422,7 +428,7 @@ SHOC_COORDS = {'face': ('y_centre', 'x_centre'), 'left': ('y_left', 'x_left'),
                'back': ('y_back', 'x_back'), 'node': ('y_grid', 'x_grid')}
 
 
-def make_shoc_standard(rng, *, nj=None, ni=None, holes=None, coord_style=None, maxn=5, map_kind=None):
+def make_shoc_standard(rng, *, nj=None, ni=None, holes=None, coord_style=None, maxn=5, map_kind=None, transpose_face_lon=False):
     m = ShocStandard()
     nj = int(nj if nj is not None else rng.integers(1, maxn + 1))
     ni = int(ni if ni is not None else rng.integers(1, maxn + 1))
@@ -461,6 +467,8 @@ def make_shoc_standard(rng, *, nj=None, ni=None, holes=None, coord_style=None, m
     m.coord_names = dict(SHOC_COORDS)
     m.coord_values = {'face': (cx, cy), 'left': (lx, ly), 'back': (bx, by), 'node': (gx, gy)}
     m.encoding = dict(holes=holes, coord_style=coord_style, map=map_kind, stray_nodes=int(stray.sum()))
+    if transpose_face_lon:
+        m.encoding['transpose_face_lon'] = True
     m.derived_geometry = False
     m.removed = ~face_has_geom
     lcx = (nx[:-1, :-1] + nx[:-1, 1:] + nx[1:, 1:] + nx[1:, :-1]) / 4
